@@ -187,6 +187,9 @@ def run(geofile, raw, outpath):
             cur_probe = None
             na = an.geo.normal_at(pos, pos - eps_at(pos) * ref)
             nrm = na["n"] if na["valid"] else None
+            # a second, non-parallel surface within 10 eps of the point: edge / corner of the geometry,
+            # where the eps-displaced logical points are meaningless -- the history is not judged further
+            P["edge"] = bool(na.get("why") == "edge")
             an.normals[na["why"] or "ok"] = an.normals.get(na["why"] or "ok", 0) + 1
             s_arr = float(np.dot(ref, nrm)) if nrm is not None else 0.0
             if nrm is not None and abs(s_arr) < TAN:
@@ -306,6 +309,14 @@ def run(geofile, raw, outpath):
                     if "chg" in P:
                         ka, kb = an.key(P["chg"][0]), an.key(P["chg"][1])
                         o["f_change"] = "U" if ka is None or kb is None else tfu(ka != kb)
+                        if o["f_change"] == "F":
+                            # "no change across the reported boundary" is only decidable away from edges and
+                            # grazing incidence: a chord shorter than 4 eps (clipped edge, tangent ray) hides
+                            # between the two sample points
+                            bp = P["pos"] + d * P["dir"]
+                            na = an.geo.normal_at(bp, an.queries[P["chg"][0]])
+                            if not na["valid"] or abs(float(np.dot(P["dir"], na["n"]))) < 1e-3:
+                                o["f_change"] = "U"
                     else:
                         o["f_change"] = "U"
                     if e == "FindMax":
@@ -322,6 +333,7 @@ def run(geofile, raw, outpath):
                     o["rem"] = P["rem"]
                 if e == "MoveB":
                     o["legal"] = P["legal"]
+                    o["edge"] = P.get("edge", False)
                 if e == "Safety":
                     s = P["s"]
                     o["sneg"] = bool(s is not None and s < 0)
